@@ -55,6 +55,16 @@ def enum_cases(tier):
             lengths = [100, 66, 200, 300]
             lengths[which] = length
             yield {"axis": f"facility{which + 1}", "facility_lengths": lengths, "vseed": seed}
+    # declared lengths around the powers of two of the 4-byte binary length (real records of
+    # several MB exist; 16 MiB and more is legal for both the binary and the 8-digit ASCII field)
+    big = [2**16 - 1, 2**16, 2**16 + 1, 2**24 - 1, 2**24, 2**24 + 4097]
+    for j, length in enumerate(big):
+        if tier == "quick" and length > 2**24 and j % 2:
+            continue
+        seed += 1
+        lengths = [100, 66, 200, 300]
+        lengths[j % 4] = length
+        yield {"axis": f"facility{j % 4 + 1}-large", "facility_lengths": lengths, "vseed": seed}
     for mp in (False, True):
         for des in product.DESIGNATORS:
             seed += 1
